@@ -75,6 +75,36 @@ func c03Fixed() []c03FixedCase {
 		addA("iface-holds-slice-of-ifaces-with-back-reference", p)
 	}
 
+	// --- "nothing to copy" values are still real allocations and must be fresh
+	{
+		p := c03PlanOf("A", c03With(c03N(), anyOf("map", 0)), c03With(c03N(), func(n *c03NodePlan) { n.M = 1; n.MM = 0 }))
+		p.Nodes[0].Kids = []int{1}
+		p.Maps = []map[string]int{{}, {}}
+		p.MMaps = []map[string]int{{}}
+		p.AMaps = []map[string]c03AnyPlan{{}, {"empty": {K: "amap", I: 0}, "emptytyped": {K: "map", I: 1}}}
+		p.ASlices = [][]c03AnyPlan{{{K: "amap", I: 0}, {K: "map", I: 0}}}
+		p.Nodes[1].Any = c03AnyPlan{K: "aslice", I: 0}
+		addA("empty-non-nil-maps-in-iface-field-element", p, 0, 2, 4)
+		q := c03PlanOf("A", c03With(c03N(), anyOf("amap", 1)))
+		q.Maps = p.Maps
+		q.AMaps = p.AMaps
+		addA("empty-non-nil-maps-as-map-values-in-iface", q)
+	}
+	{
+		p := c03PlanOf("A",
+			c03With(c03N(), func(n *c03NodePlan) {
+				n.Kids = []int{}
+				n.Spare = 4
+				n.Any = c03AnyPlan{K: "slice", L: []int{}, C: 4}
+				n.Next = 1
+			}),
+			c03With(c03N(), func(n *c03NodePlan) { n.Kids = []int{}; n.Spare = 1; n.Any = c03AnyPlan{K: "aslice", I: 1} }))
+		p.ASlices = [][]c03AnyPlan{{}, {{K: "aslice", I: 0}, {K: "slice", L: []int{}, C: 2}, {K: "amap", I: 0}}}
+		p.ASpare = []int{4, 1}
+		p.AMaps = []map[string]c03AnyPlan{{"s": {K: "slice", L: []int{}, C: 3}, "as": {K: "aslice", I: 0}}}
+		addA("zero-length-slices-with-spare-capacity", p, 0, 2, 4)
+	}
+
 	// --- plain topologies
 	addA("self-loop", c03PlanOf("A", c03With(c03N(), func(n *c03NodePlan) { n.Next = 0 })), 0, 2, 4)
 	addA("2-cycle", c03PlanOf("A", c03With(c03N(), func(n *c03NodePlan) { n.Next = 1 }), c03With(c03N(), func(n *c03NodePlan) { n.Next = 0 })), 0, 1, 3)
@@ -172,6 +202,34 @@ func c03Fixed() []c03FixedCase {
 	addB("restack/iface-cycles-from-source", &c03Scenario{Defaults: c03TrivialPlan("B"), Watch: 1,
 		Sources: []c03SrcPlan{{Plan: bRich, Set: noAny}, {Plan: bSelf, Set: all}},
 		Updates: []c03SrcPlan{{Plan: bMapSelf, Set: all}, {Plan: b2, Set: all, Ptr: true}}}, "")
+	// empty non-nil maps and zero-length slices with spare capacity, through Config and a re-stack
+	{
+		e := c03PlanOf("B",
+			c03With(c03N(), func(n *c03NodePlan) {
+				n.Kids = []int{}
+				n.Spare = 4
+				n.Pairs = [][2]int{}
+				n.PSpare = 2
+				n.M, n.MM = 0, 0
+				n.Any = c03AnyPlan{K: "amap", I: 1}
+			}))
+		e.Maps = []map[string]int{{}, {}}
+		e.MMaps = []map[string]int{{"e": 1}}
+		e.AMaps = []map[string]c03AnyPlan{{}, {"m": {K: "map", I: 1}, "am": {K: "amap", I: 0}, "s": {K: "slice", L: []int{}, C: 3}, "as": {K: "aslice", I: 0}}}
+		e.ASlices = [][]c03AnyPlan{{}}
+		e.ASpare = []int{4}
+		em := c03PlanOf("B", c03With(c03N(), func(n *c03NodePlan) { n.Kids = []int{}; n.Spare = 2; n.M = 0; n.Any = c03AnyPlan{K: "map", I: 0} }))
+		em.Maps = []map[string]int{{}}
+		es := c03PlanOf("B", c03With(c03N(), func(n *c03NodePlan) { n.Kids = []int{}; n.Spare = 3; n.Any = c03AnyPlan{K: "slice", L: []int{}, C: 4} }))
+		addB("config/defaults-empty-maps-and-spare-capacity-slices", &c03Scenario{Defaults: e, Watch: -1}, "")
+		addB("config/defaults-empty-map-in-iface", &c03Scenario{Defaults: em, Watch: -1}, "")
+		addB("config/defaults-zero-length-slice-in-iface", &c03Scenario{Defaults: es, Watch: -1}, "")
+		addB("config/source-empty-maps-and-spare-capacity-slices", &c03Scenario{Defaults: c03TrivialPlan("B"), Watch: -1,
+			Sources: []c03SrcPlan{{Plan: e, Set: all}}}, "")
+		addB("restack/empty-maps-and-spare-capacity-slices", &c03Scenario{Defaults: em, Watch: 0,
+			Sources: []c03SrcPlan{{Plan: es, Set: noAny}},
+			Updates: []c03SrcPlan{{Plan: e, Set: noAny, Ptr: true}, {Plan: em, Set: noAny}}}, "")
+	}
 	// two layers set Any: a slice/array/map payload replaces the lower layer's value as a whole
 	addB("config/slice-in-iface-set-by-two-layers", &c03Scenario{Defaults: c03TrivialPlan("B"), Watch: -1,
 		Sources: []c03SrcPlan{
